@@ -25,6 +25,14 @@ CHECKS = {
              'swallowed by an unterminated instance/string are exempt from confinement. Known defects are in known_findings.json.',
         technique='exhaustive single-fault enumeration over structured inputs on the real reader + confinement oracle',
         ref='3/C03'),
+    'C14': dict(
+        text='Exhaustive enumeration of append histories on the real STEPfile: every sequence Read(A) Append(B) [Append(C)] over 8 reference patterns '
+             '(plain, aggregate, select, complex part, forward ...) x 6 id patterns (identical dense ids, sparse, around 1000/2000, large, reversed); every '
+             'reference of an appended file also names a type-correct instance of the earlier file, so a wrong resolution would be silent. The manager '
+             'contents and the written file are compared with a dict model (A unchanged, B shifted by one common offset above every earlier id).',
+        note='Trusted: p21ref. Ids whose shifted value would exceed INT_MAX are not generated.',
+        technique='exhaustive enumeration of short operation histories on the real object + reference-model comparison',
+        ref='3/C14'),
     'C15': dict(
         text='Exhaustive configuration x input enumeration on the real reader: strict in {off,on} x every entity of families K and I x every attribute '
              'position (own, inherited, inside each part of an externally mapped instance) replaced by `$` and by the empty parameter; the severity, the '
